@@ -14,6 +14,7 @@
   the disparity) and translation equivariant; `specCell_is_mcCellStep` / `costVolume_is_mcCellStep`
   identify the model with it, and `mc_crop_eq_whole` is crop = whole for the cost volume.
 -/
+import PandoraModel.Model.PipelineRun
 import PandoraModel.Properties.C13Util
 import PandoraModel.Properties.C02
 
@@ -226,35 +227,6 @@ theorem coreCell_transport (x x' : Input) (hp : SameParams x x') (r c k t1 t2 : 
   rw [← hg.1, ← hg.2, hp.sp, ← hmL, ← hmR, ← hv]
 
 /-! ### the step on partial images -/
-
-/-- the configuration of the step (what is not per pixel) -/
-structure McParams where
-  meas : Measure
-  w : Nat
-  sp : Nat
-  presentL : Bool
-  validL : Int
-  nodataL : Int
-  presentR : Bool
-  validR : Int
-  nodataR : Int
-
-/-- what the step reads at one pixel: left and right radiometry, left and right mask codes, the pixel's
-    disparity interval -/
-structure McCell where
-  l : Rat
-  r : Rat
-  ml : Int
-  mr : Int
-  dmin : Int
-  dmax : Int
-
-def paramsOf (x : Input) : McParams :=
-  ⟨x.meas, x.w, x.sp, x.mL.present, x.mL.valid, x.mL.nodata, x.mR.present, x.mR.valid, x.mR.nodata⟩
-
-/-- the scene of an input as an array of cells -/
-def mcScene (x : Input) : Nat → Nat → McCell := fun r c =>
-  ⟨x.L.px r c, x.R.px r c, x.mL.code r c, x.mR.code r c, x.dminG r c, x.dmaxG r c⟩
 
 def readQ (a : Img McCell) (f : McCell → Rat) (i j : Int) : Rat :=
   match a (i, j) with
